@@ -178,10 +178,29 @@ pub fn run(rng: &mut Rng, n: usize, out: &mut Out, which: &str) {
                     out.count("position_commands");
                     if !use_startpos { out.count(&format!("fen_fullmove_{}", start.fullmove_counter)); }
                     // C09: for every successor of the current position: does the engine regard it as a draw by repetition?
+                    let mut any_third = false;
                     for m in g.mg.generate_moves(&b) {
                         let q = b.clone_with_move(&m);
                         let a = out.run(&mut st, &format!("eng.isdraw {}", board_text(&q)));
+                        if a == "true" { any_third = true; }
                         out.count(if a == "true" { "successor_is_third_occurrence" } else { "successor_not_repetition" });
+                    }
+                    // ... and does the SEARCH value such a successor as a draw?  Only after the last position command of the
+                    // case (the table is still empty then: results cached before this history existed are outside the property),
+                    // on positions whose successors all have small quiescence trees (the reference value needs them)
+                    if which == "c09" && ci + 1 == ncmds && (any_third || rng.chance(1, 4)) {
+                        let succ: Vec<Board> = g.mg.generate_moves(&b).iter().map(|m| b.clone_with_move(m)).collect();
+                        if !succ.is_empty() && succ.len() <= 40 && succ.iter().all(|q| qsize(&mut st, q, 1500).is_some()) {
+                            let a = out.run(&mut st, "eng.go 1");
+                            let f: Vec<&str> = a.split_whitespace().collect();
+                            if !f.is_empty() { out.run(&mut st, &format!("eng.judge1 {}", f[0])); }
+                            out.count("depth1_searches_with_history_judged");
+                            if any_third { out.count("depth1_searches_with_a_third_occurrence_successor"); }
+                            // deeper searches on the same engine: model tie (node counts) with the history in place
+                            for d in 2..=3u8 {
+                                if crate::csearch::nodes_capped(&b, d, 20000) < 20000 { out.run(&mut st, &format!("eng.go {}", d)); out.count("deeper_searches_with_history_tied"); }
+                            }
+                        } else { out.count("history_search_skipped_large_quiescence"); }
                     }
                 }
             }
